@@ -22,10 +22,21 @@ type c16Input struct {
 	GlobalVar bool   `json:"global_vars"`
 	LocalVar  bool   `json:"local_vars"`
 	Probes    string `json:"probes"` // none | exec | http | both
+	Only      string `json:"only_templated_field,omitempty"` // when set, this is the only field that carries a template
 	Mode      string `json:"map_order"`
 }
 
+func (in c16Input) port() string {
+	if in.Only != "" && in.Only != "port" {
+		return "4047"
+	}
+	return "404{{.PC_REPLICA_NUM}}"
+}
+
 func (in c16Input) tpl(field string) string {
+	if in.Only != "" && in.Only != field {
+		return field + "-plain"
+	}
 	s := field + "-{{.PC_REPLICA_NUM}}"
 	if in.GlobalVar {
 		s += "-{{.G}}"
@@ -57,7 +68,7 @@ func (in c16Input) yaml() string {
 		fmt.Fprintf(&b, "    readiness_probe:\n      exec:\n        command: %q\n      period_seconds: 2\n", in.tpl("chk"))
 	}
 	if in.Probes == "http" || in.Probes == "both" {
-		fmt.Fprintf(&b, "    liveness_probe:\n      http_get:\n        host: %q\n        path: %q\n        port: \"404{{.PC_REPLICA_NUM}}\"\n", in.tpl("host"), "/"+in.tpl("path"))
+		fmt.Fprintf(&b, "    liveness_probe:\n      http_get:\n        host: %q\n        path: %q\n        port: %q\n", in.tpl("host"), "/"+in.tpl("path"), in.port())
 	}
 	b.WriteString("  k:\n    command: \"keeps\"\n    namespace: ns1\n    launch_timeout_seconds: 1\n    replicas: 1\n")
 	b.WriteString("  x:\n    command: \"plain\"\n  y:\n    command: \"other {{.PC_REPLICA_NUM}}\"\n    replicas: 2\n")
@@ -158,6 +169,13 @@ func c16E2(tier string, o *E2Out) {
 					}
 					in := c16Input{Replicas: r, GlobalVar: g, LocalVar: l, Probes: pr}
 					c16One(o, dir, in, tier == "thorough" || r <= 3)
+					// one templated field at a time (a shortcut taken for "plain" values must look at every field)
+					if pr == "both" && (r == 2 || r == 3) && !(g && l) {
+						for _, only := range []string{"cmd", "wd", "log", "desc", "chk", "host", "path", "port"} {
+							in.Only = only
+							c16One(o, dir, in, false)
+						}
+					}
 				}
 			}
 		}
@@ -264,8 +282,12 @@ func c16One(o *E2Out, dir string, in c16Input, full bool) {
 					h := pc.LivenessProbe.HttpGet
 					chk("probe.http.host", h.Host, in.tpl("host"))
 					chk("probe.http.path", h.Path, "/"+in.tpl("path"))
-					chk("probe.http.port", h.Port, "404{{.PC_REPLICA_NUM}}")
-					if wantPort := 4040 + pc.ReplicaNum; pc.ReplicaNum < 10 && h.NumPort != wantPort {
+					chk("probe.http.port", h.Port, in.port())
+					wantPort := 4040 + pc.ReplicaNum
+					if in.port() == "4047" {
+						wantPort = 4047
+					}
+					if pc.ReplicaNum < 10 && h.NumPort != wantPort {
 						o.violation("C16", "rendered:probe.http.num_port", fmt.Sprintf("replica %d: numeric port %d, want %d", pc.ReplicaNum, h.NumPort, wantPort), in)
 					}
 				}
